@@ -292,4 +292,14 @@ impl Lexer {
         ret.shrink_to_fit();
         Ok(ret)
     }
+
+    /// To be called after the last line: returns the string literal that is still pending
+    /// because nothing but string literals (or nothing at all) followed it.
+    pub fn finish(&mut self) -> Option<Token<'static>> {
+        self.concatenated_strings.take().map(|s| Token {
+            loc: self.loc,
+            typ: TokType::StringLiteral,
+            val: Some(Cow::from(s)),
+        })
+    }
 }
